@@ -51,6 +51,7 @@ def regenerate(ctx):
     disc = rt.discipline(facts, roots)
     facts["discipline"] = disc
     facts["token_oracle_missing"] = rt.token_oracle(facts, str(vlib.REPO))
+    facts["advisory_extended_role"] = rt.advisory_extended_role(facts, roots)
     txt = rt.emit_lean(facts, disc)
     out = vlib.LEAN / "BFL" / "Gen" / "RaceTable.lean"
     changed = (not out.exists()) or out.read_text() != txt
@@ -255,6 +256,9 @@ def tsan_cases(ctx):
         for phase in ("neverrun", "rebooted"):
             for action in ("read", "destroy"):
                 cases.append("afterwait %s %d %s %s" % (kind, g.r.randint(1, 10 ** 6), phase, action))
+    if not ctx.quick():
+        cases.append("extlog kf %d LOG" % g.r.randint(1, 10 ** 6))      # advisory: logging reconfigured while stepping
+        cases.append("extlog sis %d LOG" % g.r.randint(1, 10 ** 6))
     return cases
 
 
@@ -319,13 +323,24 @@ def run(ctx):
     unpredicted = []       # (key, what, case, report)
     other_warnings = {}
     afterwait_reports = []
+    advisory_observed = set()
     for ci, line in enumerate(cases):
         r = run_tsan_case(binary, line, timeout=ctx.n(60, 240))
         reps = parse_tsan(r["stderr"])
         r["reports"] = len(reps)
         runs.append(r)
-        if r["out"] == "timeout" or not r["out"].startswith("ok"):
+        if (r["out"] == "timeout" or not r["out"].startswith("ok")) and not line.startswith("extlog"):
             timeouts += 1
+            ctx.notes.append("run did not complete: %s -> %s" % (line, r["out"][:80]))
+        if line.startswith("extlog"):
+            # advisory case (enable_log / disable_log are not commands of the property): compare with the advisory
+            # prediction, never a violation
+            for rep in reps:
+                if rep["kind"] == "data race":
+                    fields, used = attribute(rep, facts, vlib.REPO)
+                    for f in fields:
+                        advisory_observed.add(fname(f))
+            continue
         for rep in reps:
             if line.startswith("afterwait") and rep["kind"] in ("data race", "heap-use-after-free"):
                 afterwait_reports.append((r, rep))
@@ -387,6 +402,9 @@ def run(ctx):
     # ---- evidence
     hist = {}
     for r in runs:
+        if r["line"].startswith("extlog"):
+            hist["extlog (advisory)"] = hist.get("extlog (advisory)", 0) + 1
+            continue
         if r["line"].startswith("afterwait"):
             hist["afterwait " + " ".join(r["line"].split()[3:5])] = hist.get("afterwait " + " ".join(r["line"].split()[3:5]), 0) + 1
             continue
@@ -418,6 +436,13 @@ def run(ctx):
                   "reach_controller": len(facts["discipline"]["reach"]["controller"]), "reach_filter": len(facts["discipline"]["reach"]["filter"]),
                   "field_kinds": {k: sum(1 for f in F if f["kind"] == k) for k in ("atomic", "plain", "mutex", "condvar", "other")}},
         "verdict_source": vsource,
+        "advisory_extended_role": {
+            "entry_points_not_in_the_role_map": ["Logger::enable_log", "Logger::disable_log", "Logger::get_folder_path", "Logger::get_file_name_prefix"],
+            "why": "configuration of the logger, not one of the control / query commands the property names; get_folder_path / get_file_name_prefix are exercised by the harness anyway (read-only after enable_log, must stay silent)",
+            "members_that_would_be_undisciplined": facts["advisory_extended_role"],
+            "observed_by_tsan_in_extlog_cases": sorted(advisory_observed)},
+        "closures_resolved": [m["qual"] for m in facts["methods"] if "$closure" in m["qual"]],
+        "functions_handing_out_references": sum(1 for m in facts["methods"] if m.get("escapes")),
         "join_certified": facts["discipline"]["join_certified"],
         "thread_handle_operations": ["%s: %s (line %d)" % (facts["methods"][t["meth"]]["qual"], t["op"], t["line"]) for t in facts.get("thread_ops", [])],
         "afterwait_runs": sum(1 for r in runs if r["line"].startswith("afterwait")), "afterwait_reports": len(afterwait_reports),
